@@ -43,7 +43,8 @@ class Insert(ASTNode):
     def to_value(self, val):
         if isinstance(val, ASTNode) :
             return val.to_string()
-        return repr(val)
+        # python value: render it as the constant it stands for (repr() is python syntax, not sql)
+        return Constant(val).to_string()
 
     def to_tree(self, *args, level=0, **kwargs):
         ind = indent(level)
